@@ -1,0 +1,18 @@
+//go:build verif
+
+package ios
+
+import "github.com/hknutzen/Netspoc-Approve/go/pkg/console"
+
+// VerifBannerFind exposes the match of bannerRe (verification harness only).
+func VerifBannerFind(out string) []int {
+	return bannerRe.FindStringSubmatchIndex(out)
+}
+
+// VerifStripReloadBanner calls the real stripReloadBanner on a State that uses conn.
+func VerifStripReloadBanner(conn *console.Conn, active bool, out string) (string, bool) {
+	s := &State{}
+	s.Conn = conn
+	s.reloadActive = active
+	return s.stripReloadBanner(out)
+}
